@@ -31,6 +31,8 @@ KIT_L = [
     'nbdime.diff_format.op_add', 'nbdime.diff_format.op_remove', 'nbdime.diff_format.op_replace', 'nbdime.diff_format.op_patch#str',
     'nbdime.diff_format.MappingDiffBuilder.__init__', 'nbdime.diff_format.MappingDiffBuilder.append',
     'nbdime.diff_format.MappingDiffBuilder.validated', 'nbdime.diffing.generic.diff_dicts',
+    'nbdime.diff_format.validate_diff_entry', 'nbdime.diff_format.validate_diff_entry#map', 'nbdime.diff_format.validate_diff',
+    'nbdime.diff_format.validate_diff#map', 'nbdime.diffing.generic.diff',
 ]
 
 
